@@ -95,6 +95,7 @@ def generate(ck):
                     "scale_pow": int(rng.integers(-6, 7)),
                     "as": str(rng.choice(["df", "dict"])),
                     "mobile_water": bool(rng.random() < 0.4),
+                    "jail": bool(rng.random() < 0.25),
                     "all_columns": bool(rng.random() < 0.5),
                 }
             )
@@ -200,6 +201,19 @@ def run_case(ck, desc):
         kr = relative_permeabilities(rec, RelPermParams(*p9))
         df_kr = pd.DataFrame({"So": so, "Sw": np.full(50, Sw), "Sg": 1 - Sw - so, "kro": kr["kro"], "krw": kr["krw"], "krg": kr["krg"]})
     u = desc["u"]
+    if desc.get("jail") and len(P) >= 12 and float(np.ptp(cols["So"])) > 0.1:
+        # a "permeability jail": all three relative permeabilities are zero over a window of oil
+        # saturation that several consecutive table rows fall into; the integral is flat there, every
+        # row stays a row, and the transform is strictly increasing only where something is mobile
+        df_kr = pd.DataFrame(df_kr).copy()
+        so_rows = np.sort(cols["So"])
+        lo_j, hi_j = float(so_rows[len(so_rows) // 4]), float(so_rows[len(so_rows) // 4 + max(3, len(so_rows) // 6)])
+        grid_so = np.unique(np.concatenate([np.asarray(df_kr["So"], dtype=float), [lo_j, hi_j]]))
+        df_kr = pd.DataFrame({c_: np.interp(grid_so, np.asarray(df_kr["So"], dtype=float), np.asarray(df_kr[c_], dtype=float)) for c_ in ("So", "Sw", "Sg", "kro", "krw", "krg")})
+        inside = (df_kr["So"] >= lo_j) & (df_kr["So"] <= hi_j)
+        for c_ in ("kro", "krw", "krg"):
+            df_kr.loc[inside, c_] = 0.0
+        ck.count("tables_with_an_immobile_stretch")
     ki = max(2, int(u[0] * (len(P) - 1)))
     p_i = float(P[ki])
     refd = dict(zip(names, dens))
@@ -213,6 +227,9 @@ def run_case(ck, desc):
     if not instrument.same_snapshot(snap, instrument.snapshot(arg)):
         ck.violation("caller-table-unmodified", {}, desc)
     got = np.asarray(obj.pvt_props["pseudopressure"], dtype=float)
+    if len(got) != len(P) or not np.array_equal(np.asarray(obj.pvt_props["pressure"], dtype=float), P):
+        ck.violation("stored-table-keeps-every-row", {"rows_stored": int(len(got)), "rows_in_table": int(len(P))}, desc)
+        return True, None
     if not CAPTURED:
         # the table's pseudopressure is judged below whichever routine produced it
         ck.count("from_table_calls_that_bypassed_the_spy")
@@ -228,13 +245,18 @@ def run_case(ck, desc):
     _common(ck, desc, P, lam, got, "from_table")
     # derived scaled pseudopressure
     ms = np.asarray(obj.pvt_props["m-scaled"], dtype=float)
-    if np.any(np.diff(ms) <= 0):
-        ck.violation("m-scaled-strictly-increasing", {"n_bad": int(np.sum(np.diff(ms) <= 0))}, desc)
+    mobile_step = (lam[1:] > 0) | (lam[:-1] > 0)
+    if np.any(np.diff(ms)[mobile_step] <= 0) or np.any(np.diff(ms) < 0):
+        ck.violation("m-scaled-strictly-increasing", {"n_bad": int(np.sum(np.diff(ms)[mobile_step] <= 0))}, desc)
+    if np.any(np.diff(ms)[~mobile_step] != 0):
+        ck.violation("flat-where-nothing-is-mobile", {"largest_step": float(np.max(np.abs(np.diff(ms)[~mobile_step])))}, desc)
     if not ck.margin("m_i = 1 at a node", abs(float(obj.m_i) - 1), 1e-12):
         ck.violation("m_i=1", {"m_i": float(obj.m_i)}, desc)
     p_f = float(P[0] + u[1] * (p_i - P[0]) * 0.999)
     mf = float(obj.m_scaled_func(p_f))
-    if not (0 <= mf < 1):
+    own_m = _trapz(P, lam)
+    nothing_mobile_between = bool(np.interp(p_f, P, own_m) == own_m[ki])  # (an immobile stretch reaching up to p_i)
+    if not (0 <= mf < 1) and not (nothing_mobile_between and mf == 1):
         ck.violation("frac-face maps into [0,1)", {"p_f": p_f, "p_i": p_i, "m_scaled": mf}, desc)
     # frac-face pressures BELOW the table's first row (a table that starts at 300 or 1000 psi): the
     # transform either refuses them or still answers inside [0, 1) - never a negative value
@@ -251,6 +273,8 @@ def run_case(ck, desc):
     # initial pressure BETWEEN two table rows: 1 at p_i up to the interpolation error of 1/m, i.e.
     # 1 <= m_i <= (m_k + m_k+1)^2 / (4 m_k m_k+1) (C09's exact range), and m_scaled_func(p_i) = m_i
     kk = max(2, min(len(P) - 2, ki))
+    while kk < len(P) - 2 and not got[kk] > 0:
+        kk += 1  # (the scaling 1 / m(p_i) needs something to have been mobile below p_i)
     p_off = float(P[kk] + (0.1 + 0.8 * u[2]) * (P[kk + 1] - P[kk]))
     with warnings.catch_warnings(), np.errstate(all="ignore"):
         warnings.simplefilter("ignore")
